@@ -23,7 +23,7 @@ MANIFEST = {
              '(each is an invariant of the search history). The claim is "these parts are as the property needs them".'),
 }
 EXPLANATION = 'Unsafe inventory + premise dominance for the sentinel scans + structural completeness facts of run_dispatch.'
-RULES = ['C05-1.unsafe', 'C05-1.premises', 'C05-2.complete', 'C05-3.timedpath', 'C05-4.times', 'C05-5.index']
+RULES = ['C05-1.unsafe', 'C05-1.premises', 'C05-2.complete', 'C05-3.timedpath', 'C05-4.times', 'C05-5.index', 'C05-6.cursor']
 ASSUMPTIONS = ['the sentinel index passed by callers is the one the scan was designed for (not decided)']
 
 # reviewed unsafe sites: function -> number of unchecked accesses (DESIGN A.3; 14 in total)
@@ -36,6 +36,7 @@ def run(ctx):
     premises(ctx)
     complete(ctx)
     timedpath(ctx)
+    cursor(ctx)
     # clauses shared with C04, decided by the same rules: the time an advance starts from and the stamps it writes (arrival times
     # non-decreasing and never faster than the free-running estimates), and the addressing of authorities (a wrong entry index
     # reads another train's authority or aborts past the end of the list)
@@ -380,3 +381,55 @@ def _same_elem(a, b_):
     ia = [c[1] for x in walk(a) if x[0] == 'pre' for c in x[1] if c[0] == 'idx'] if a else []
     ib = [c[1] for x in walk(b_) if x[0] == 'pre' for c in x[1] if c[0] == 'idx'] if b_ else []
     return bool(ia) and bool(ib) and ia[0] == ib[0]
+
+
+def cursor(ctx):
+    """C05-6.cursor: check_deadlock skips the leading trains that have finished.  The cursor it carries from call to call may
+    advance only over a finished train AT the cursor position (so it always stays at or before the first unfinished train);
+    every unfinished train from the cursor on, except the one that just moved, is re-planned."""
+    from sa.terms import mk, ONE, show, walk
+    from .common import engine, selected_iteration
+    R = 'C05-6.cursor'
+    b = None
+    for fid in sorted(ctx.prog.by_id):
+        if fid.endswith('check_deadlock') and not ctx.prog.by_id[fid].test:
+            b = ctx.prog.by_id[fid]
+    if b is None:
+        ctx.unproved(R, 'check_deadlock', 'anchor not found'); return
+    an = engine(ctx).analysis(b)
+    if an.exit_state is None or len(b.params) != 5:
+        ctx.unproved(R, 'check_deadlock', 'not analysable', ctx.where(b)); return
+    w = ctx.where(b)
+    key = (('local', b.params[2][0]),)
+    beginp = ('pre', (('val', b.params[2][0]),))
+    ok = False
+    why = 'the cursor is not carried through the loop'
+    for h in an.loop_entry:
+        if key not in an.havoc.get(h, ()):
+            continue
+        L = ('loopvar', h, key)
+        ent = an.load(key, an.loop_entry[h])
+        backs = [an.load(key, s_) for s_ in an.loop_back.get(h, [])]
+        ok = ent == beginp and bool(backs)
+        for x in backs:
+            # γ(finished(train[idx]) ? γ(idx == L ? L + 1 : L) : L)
+            good = x[0] == 'gamma' and x[3] == L and x[2][0] == 'gamma' and x[2][2] == mk('add', L, ONE) and x[2][3] == L and \
+                x[2][1][0] == 'eq' and L in (x[2][1][1], x[2][1][2]) and any(y[0] == 'iterpos' for y in walk(x[2][1])) and \
+                'disp_node_idx_free' in show(x[1]) and 'disp_path' in show(x[1])
+            ok = ok and good
+        why = 'cursor starts at %s; per train it becomes %s' % (show(ent, an.names)[:40], [show(x, an.names)[-160:] for x in backs])
+    ctx.check(ok, R, 'check_deadlock|advance', 'the cursor advances by one only when the train AT the cursor has finished (it never jumps over an unfinished train)', why, w)
+    r = an.ret()
+    ok = r[0] == 'ok' and r[1][0] == 'tuple' and len(r[1]) == 3 and r[1][2][0] == 'loopvar' and r[1][2][2] == key
+    ctx.check(ok, R, 'check_deadlock|returned', 'the advanced cursor is what the caller gets back for the next check', 'returns %s' % show(r, an.names)[:120], w)
+    ufp = [c for c in an.calls if c.targets and any(t.endswith('update_free_path') for t in c.targets)]
+    ok = len(ufp) == 1
+    if ok:
+        c = ufp[0]
+        sel = [selected_iteration(cnd) for cnd, o in c.pc if selected_iteration(cnd) is not None]
+        skips = [a_ for s_ in sel for a_ in s_]
+        others = [show(cnd, an.names)[:300] for cnd, o in c.pc if selected_iteration(cnd) is None]
+        ok = len(skips) == 1 and skips[0][0] == 'skip' and skips[0][1] == beginp and len(others) == 2 and \
+            any('disp_node_idx_free' in x for x in others) and any('train_idx_moved' in x or 'arg4' in x for x in others)
+    ctx.check(ok, R, 'check_deadlock|replanned', 'every train from the cursor on that has not finished and is not the train that just moved is re-planned (no other train is left out)',
+              'update_free_path gate: %s' % ([(show(cnd, an.names)[:100], o) for cnd, o in ufp[0].pc] if ufp else None), w)
